@@ -1,7 +1,7 @@
 (* C09 — generation is deterministic; re-running on unchanged input is a no-op.   PARTIAL.
    Only statements, [exact], and Print Assumptions live here.
    What these theorems cover: (1) every order-relevant set-iteration site inventoried by the translator
-   (Gen/T_C09.v) is permutation invariant, except the one refuted (F09a); (2) the diff decision of the
+   (Gen/T_C09.v) is permutation invariant (full since the fix of F09a); (2) the diff decision of the
    non-force path; (3) agreement of the force path with the temp-dir path, and the rerun corollary.
    NOT covered by any theorem: byte-level determinism of the whole generator (the model's emitters are
    functions, hidden state cannot show up in it) — that part is the differential oracle of prop_C09.py. *)
@@ -9,26 +9,28 @@ From PG Require Import Lib.Strs Model.Sites Model.Diff Proofs.Sites Proofs.Diff.
 From Coq Require Import Permutation.
 
 (* ---------------------------------------------------------------- (1) sites *)
-(* C09_sites, full statement (FALSE on the unchanged tree, see C09_refuted_F09a):
-     forall m, In m order_relevant_models -> site_obligation m.
-   [site_obligation m] is "Permutation l1 l2 -> f l1 = f l2" for the Gallina transcription f of site m, and
-   False for a site name without transcription, so a new order-relevant site breaks this proof. *)
-Theorem C09_sites_partial : forall m,
-  In m order_relevant_models -> m <> m_ensure_path_vars -> site_obligation m.
-Proof. exact sites_partial. Qed.
-Print Assumptions C09_sites_partial.
+(* FULL since the fix of F09a (_ensure_path_variables_as_params now iterates in template order and is listed
+   as sorted-wrapped by the inventory).  [site_obligation m] is "Permutation l1 l2 -> f l1 = f l2" for the
+   Gallina transcription f of site m, and False for a site name without transcription, so a new order-relevant
+   site breaks this proof. *)
+Theorem C09_sites_full : forall m, In m order_relevant_models -> site_obligation m.
+Proof. exact sites_full. Qed.
+Print Assumptions C09_sites_full.
 
-Theorem C09_refuted_F09a :
-  In m_ensure_path_vars order_relevant_models /\ ~ site_obligation m_ensure_path_vars.
-Proof. exact sites_refuted_F09a. Qed.
-Print Assumptions C09_refuted_F09a.
+(* the formerly refuted site: whatever order the set of path variables is iterated in, the signature is the same *)
+Theorem C09_site1_full : forall san ps template l1 l2,
+  NoDup l1 -> (forall v, In v l1 -> In v template) -> Permutation l1 l2 ->
+  signature_order san ps template l1 = signature_order san ps template l2.
+Proof. exact site1_full. Qed.
+Print Assumptions C09_site1_full.
 
-(* the refuted site IS order independent when at most one path variable is undeclared *)
-Theorem C09_site1_partial : forall san ps l1 l2,
-  NoDup l1 -> Permutation l1 l2 -> guard_F09a san ps l1 = true ->
-  signature_order san ps l1 = signature_order san ps l2.
-Proof. exact site1_partial. Qed.
-Print Assumptions C09_site1_partial.
+(* regression: the witness of the fixed F09a (two undeclared variables, two iteration orders) *)
+Theorem C09_regression_F09a :
+  signature_order Proofs.Sites.idS [] [v_alpha; v_beta] [v_alpha; v_beta] = [v_alpha; v_beta] /\
+  signature_order Proofs.Sites.idS [] [v_alpha; v_beta] [v_beta; v_alpha] = [v_alpha; v_beta] /\
+  signature_order Proofs.Sites.idS [(v_beta, false)] [v_alpha; v_beta] [v_beta; v_alpha] = [v_alpha; v_beta].
+Proof. exact site1_regression_F09a. Qed.
+Print Assumptions C09_regression_F09a.
 
 (* add_typing_imports_for_type + ImportCollector.get_formatted_imports: for every classification of words,
    every stdlib predicate, every (well-formed) prior collector state *)
@@ -39,17 +41,16 @@ Proof. exact site2_invariant. Qed.
 Print Assumptions C09_site2_full.
 
 (* ---------------------------------------------------------------- (2) diff decision *)
-(* C09_diff_sound, full statement (FALSE: F09b, F09f; and for whole trees F09g):
-     forall old new, show_diffs old new = false -> py_files old = py_files new (as finite maps). *)
-Theorem C09_diff_sound_partial : forall old new,
-  guard_F09b old new = true -> guard_F09f old new = true -> show_diffs old new = false ->
-  forall p, tlookup p (py_files old) = tlookup p (py_files new).
-Proof. exact diff_sound_py_partial. Qed.
-Print Assumptions C09_diff_sound_partial.
+(* FULL since the fix of F09b/F09f: no differences reported => the *.py files of the existing tree are exactly
+   the *.py files that would be generated now, byte for byte (missing / stale / terminator-only cases included) *)
+Theorem C09_diff_sound_full : forall old new,
+  show_diffs old new = false -> forall p, tlookup p (py_files old) = tlookup p (py_files new).
+Proof. exact diff_sound_py_files. Qed.
+Print Assumptions C09_diff_sound_full.
 
-(* with the third guard the existing tree IS the new tree, every file, byte for byte *)
+(* for WHOLE trees one guard remains: non-*.py files are not compared (F09g) *)
 Theorem C09_diff_sound_all_partial : forall old new,
-  guard_diff old new = true -> show_diffs old new = false -> forall p, tlookup p old = tlookup p new.
+  guard_F09g old new = true -> show_diffs old new = false -> forall p, tlookup p old = tlookup p new.
 Proof. exact diff_sound_partial. Qed.
 Print Assumptions C09_diff_sound_all_partial.
 
@@ -59,20 +60,16 @@ Theorem C09_diff_complete : forall old new,
 Proof. exact show_diffs_complete. Qed.
 Print Assumptions C09_diff_complete.
 
-Theorem C09_refuted_F09b :
-  guard_F09b old_F09b new_F09b = false /\ guard_F09f old_F09b new_F09b = true /\ guard_F09g old_F09b new_F09b = true /\
-  show_diffs old_F09b new_F09b = false /\ tlookup p_models_a (py_files old_F09b) <> tlookup p_models_a (py_files new_F09b).
-Proof. exact refuted_F09b. Qed.
-Print Assumptions C09_refuted_F09b.
-
-Theorem C09_refuted_F09f :
-  guard_F09b old_F09f new_F09f = true /\ guard_F09f old_F09f new_F09f = false /\ guard_F09g old_F09f new_F09f = true /\
-  show_diffs old_F09f new_F09f = false /\ tlookup p_client (py_files old_F09f) <> tlookup p_client (py_files new_F09f).
-Proof. exact refuted_F09f. Qed.
-Print Assumptions C09_refuted_F09f.
+(* regression: the witnesses of the fixed F09b (missing + stale file) and F09f (CRLF / no final newline) *)
+Theorem C09_regression_F09b_F09f :
+  show_diffs old_F09b new_F09b = true /\ differing_g str_eqb old_F09b new_F09b = [p_models_a; p_stale] /\
+  show_diffs [(p_client, t_a1)] new_F09b = true /\ show_diffs old_F09b [(p_client, t_a1)] = true /\
+  show_diffs old_F09f new_F09f = true /\ differing_g str_eqb old_F09f new_F09f = [p_client; p_models_a].
+Proof. exact regression_F09b_F09f. Qed.
+Print Assumptions C09_regression_F09b_F09f.
 
 Theorem C09_refuted_F09g :
-  guard_F09b old_F09g new_F09g = true /\ guard_F09f old_F09g new_F09g = true /\ guard_F09g old_F09g new_F09g = false /\
+  guard_F09g old_F09g new_F09g = false /\
   show_diffs old_F09g new_F09g = false /\ tlookup p_typed old_F09g <> tlookup p_typed new_F09g.
 Proof. exact refuted_F09g. Qed.
 Print Assumptions C09_refuted_F09g.
@@ -93,13 +90,27 @@ Proof. exact rerun_partial. Qed.
 Print Assumptions C09_rerun_partial.
 
 (* conversely a *.py file present on both sides whose text is not what would be generated now makes the
-   non-force run fail (for ANY existing tree; missing/extra files are F09b) *)
+   non-force run fail (for ANY existing tree) *)
 Theorem C09_rerun_detects : forall san g existing p c c',
   In (p, c) (under (g_out g) (tree_temp san g)) -> is_py p = true ->
   tlookup p (under (g_out g) existing) = Some c' -> c' <> c ->
   fst (run_noforce san g existing) = RDifferences.
 Proof. exact rerun_detects. Qed.
 Print Assumptions C09_rerun_detects.
+
+Theorem C09_rerun_detects_missing : forall san g existing p c,
+  In (p, c) (under (g_out g) (tree_temp san g)) -> is_py p = true ->
+  tlookup p (under (g_out g) existing) = None ->
+  fst (run_noforce san g existing) = RDifferences.
+Proof. exact rerun_detects_missing. Qed.
+Print Assumptions C09_rerun_detects_missing.
+
+Theorem C09_rerun_detects_stale : forall san g existing p c,
+  In (p, c) (under (g_out g) existing) -> is_py p = true ->
+  tlookup p (under (g_out g) (tree_temp san g)) = None ->
+  fst (run_noforce san g existing) = RDifferences.
+Proof. exact rerun_detects_stale. Qed.
+Print Assumptions C09_rerun_detects_stale.
 
 Theorem C09_refuted_F09c :
   guard_F09c g_F09c = false /\ guard_F09d g_F09c [] = true /\ guard_F09e Proofs.Diff.idS g_F09c = true /\
@@ -124,17 +135,15 @@ Print Assumptions C09_refuted_F09e.
 
 (* ---------------------------------------------------------------- non-vacuity of the guards *)
 Theorem C09_guard_nonvacuous :
-  (guard_F09a Proofs.Sites.idS [(v_beta, false)] [v_alpha; v_beta] = true /\
-   signature_order Proofs.Sites.idS [(v_beta, false)] [v_alpha; v_beta] = [v_alpha; v_beta]) /\
   (wf_collector empty_collector = true /\
    add_names demo_classify empty_collector [w_List; w_Pet] <> add_names demo_classify empty_collector [w_Pet; w_List] /\
    typing_imports_render (stdlib_of [m_typing]) demo_classify empty_collector [w_List; w_Pet] <> []) /\
-  (guard_diff new_F09b new_F09b = true /\ show_diffs new_F09b new_F09b = false /\
-   guard_diff old_F09b [(p_client, t_a1 ++ t_a1); (p_stale, t_a1)] = true /\
+  (guard_F09g new_F09b new_F09b = true /\ show_diffs new_F09b new_F09b = false /\
+   guard_F09g old_F09b [(p_client, t_a1 ++ t_a1); (p_stale, t_a1)] = true /\
    show_diffs old_F09b [(p_client, t_a1 ++ t_a1); (p_stale, t_a1)] = true) /\
   (guard_modes Proofs.Diff.idS g_plain [(s_client, [400])] = true /\ wf_layout Proofs.Diff.idS g_plain = true /\
    length (tree_force Proofs.Diff.idS g_plain []) = 15%nat).
 Proof.
-  exact (conj site1_guard_nonvacuous (conj site2_nonvacuous (conj guard_diff_nonvacuous guard_modes_nonvacuous))).
+  exact (conj site2_nonvacuous (conj guard_diff_nonvacuous guard_modes_nonvacuous)).
 Qed.
 Print Assumptions C09_guard_nonvacuous.
